@@ -1,7 +1,7 @@
 CONSTANT MaxGen = 3
 CONSTANT NDig = 2
 CONSTANT MaxRevs = 4
-CONSTANT MaxSteps = 4
+CONSTANT MaxSteps = 3
 CONSTANT Reps <- One
 CONSTANT Depths = {1, 2, 3}
 CONSTANT Configs <- CfgAll
